@@ -83,6 +83,18 @@ Theorem C04_toplevel_scope_does_not_inherit_reads : forall parent x,
 Proof. exact toplevel_scope_does_not_inherit_reads. Qed.
 Print Assumptions C04_toplevel_scope_does_not_inherit_reads.
 
+(* a def written inside a <%namespace> tag resolves module-level <%! %> names before the context (they are declared
+   in its scope), while nothing of the template's body is shared with it *)
+Theorem C04_namespace_scope_inherits_module_names : forall parent nested body,
+  Idents.declared (branch parent nested (TNamespace body)) = Idents.declared parent.
+Proof. exact namespace_scope_inherits_module_names. Qed.
+Print Assumptions C04_namespace_scope_inherits_module_names.
+
+Theorem C04_namespace_def_sees_module_names : forall parent nested body x,
+  In x (Idents.declared parent) -> In x (Idents.declared (branch_init (branch parent nested (TNamespace body)) false)).
+Proof. exact namespace_def_sees_module_names. Qed.
+Print Assumptions C04_namespace_def_sees_module_names.
+
 Example C04_idents_nonvacuous :
   let body := branch_template {| Idents.declared := [9]; undeclared := []; locally_declared := []; locally_assigned := []; argument_declared := [];
                                  topleveldefs := []; closuredefs := [] |}
